@@ -30,3 +30,7 @@ pub fn lock(flag: &AtomicBool) {
 pub fn unlock(flag: &AtomicBool) {
     flag.store(false, Release);
 }
+
+/// verification hook (compiled only under `cargo kani` or `--cfg reactive_mutiny_verif`): harnesses live outside this repository
+#[cfg(any(kani, reactive_mutiny_verif))]
+pub(crate) mod verif_hooks { include!(concat!(env!("REACTIVE_MUTINY_VERIF_DIR"), "/kani/ogre_sync.rs")); }
